@@ -6,6 +6,14 @@ package centrifuge
 // itself (what the goroutine's loop body does), so writer iterations happen at schedule-chosen
 // points; with BroadcastDelay the timer is 1ns (it has fired by the time it is read).
 // Time is virtual (channelMedium.nowFn).
+//
+// End-to-end cases (CE2E): C01's driver world (c01_verif_test.go: real Node, wrapped MemoryBroker
+// with driver-held PUB/SUB tokens, real Client, recording Transport, the subscribe goroutine
+// parked at its natural gates) with a channel medium configured for the channel: publications
+// travel Node.HandlePublication -> real channelMedium -> hub -> Client; the "mark" op makes the
+// medium detect a position loss through a real Node.checkPosition and broadcast its marker; in
+// queue mode the medium's real writer goroutine and BroadcastDelay run in real time; a prior
+// subscriber of another connection leaves the channel's dissolve job pending.
 
 import (
 	"errors"
@@ -161,6 +169,143 @@ func c38RandScript(r *rand.Rand) *c38Script {
 	return sc
 }
 
+// scripts for the end-to-end cases: no recovery, no batching, no offset-less publication before the
+// subscribe finished and nothing between the server-side commit and push (C01's and C10's
+// recorded findings live there; they are not this property's subject)
+func c38E2EOps(r *rand.Rand, n int, jl bool, live bool) []c01Op {
+	ops := c01RandOps(r, n, jl)
+	for i := range ops {
+		if ops[i].K == "pub0" && !live {
+			ops[i] = c01Op{K: "pub", F: ops[i].F, Size: 100}
+		}
+	}
+	return ops
+}
+
+func c38E2EScript(r *rand.Rand) *c01Script {
+	sc := &c01Script{Medium: true, NoFilter: r.Intn(3) != 0, Pos: r.Intn(2) == 0, JL: r.Intn(2) == 0}
+	switch r.Intn(5) {
+	case 0:
+		sc.Server = true
+	case 1:
+		sc.Connect = true
+	}
+	sc.Phase = make([][]c01Op, 9)
+	sc.Phase[0] = c38E2EOps(r, r.Intn(5), sc.JL, false)
+	top := 5
+	if sc.Server {
+		top = 3
+	}
+	for k := 1; k <= top; k++ {
+		sc.Phase[k] = c38E2EOps(r, r.Intn(3), sc.JL, false)
+	}
+	live := c38E2EOps(r, 1+r.Intn(8), sc.JL, true)
+	for k := 0; k < r.Intn(3); k++ {
+		at := r.Intn(len(live) + 1)
+		live = append(live[:at:at], append([]c01Op{{K: "mark"}}, live[at:]...)...)
+	}
+	sc.Phase[6] = live
+	if r.Intn(4) == 0 {
+		sc.Unsub = 1 + r.Intn(2)
+		sc.Phase[7] = append(c38E2EOps(r, r.Intn(3), sc.JL, true), c01Op{K: "mark"})
+	}
+	if r.Intn(8) == 0 {
+		sc.Close = true
+		sc.Phase[8] = c38E2EOps(r, r.Intn(3), sc.JL, true)
+	}
+	return sc
+}
+
+// queue mode with a real BroadcastDelay, optionally with a pending dissolve job of an earlier
+// subscriber (slow: real time)
+func c38DelayScript(r *rand.Rand) *c01Script {
+	sc := &c01Script{Medium: true, NoFilter: true, JL: r.Intn(2) == 0, MediumDelayMs: 1150 + r.Intn(200), Resub: r.Intn(4) != 0}
+	sc.Phase = make([][]c01Op, 9)
+	sc.Phase[6] = []c01Op{c01P(false), c01D(0)}
+	if r.Intn(2) == 0 {
+		sc.Phase[6] = append(sc.Phase[6], c01P(false), c01D(0))
+	}
+	return sc
+}
+
+func c38E2ECorpus() []*c01Script {
+	P, D := c01P, c01D
+	M := c01Op{K: "mark"}
+	J := c01Op{K: "join"}
+	return []*c01Script{
+		// the marker ends a positioned subscription and is invisible to a plain one
+		{Medium: true, NoFilter: true, Pos: true, Phase: c01Phases(map[int][]c01Op{0: c01Ops(P(false), D(0)), 6: c01Ops(P(false), D(0), M, P(false), D(0))})},
+		{Medium: true, NoFilter: true, JL: true, Phase: c01Phases(map[int][]c01Op{6: c01Ops(P(false), D(0), M, J, D(0), P(false), D(0))})},
+		{Medium: true, NoFilter: true, Server: true, Pos: true, Phase: c01Phases(map[int][]c01Op{6: c01Ops(P(false), D(0), M, P(false), D(0))})},
+		{Medium: true, NoFilter: true, Connect: true, Phase: c01Phases(map[int][]c01Op{2: c01Ops(P(false), D(0)), 6: c01Ops(M, P(false), D(0), M)})},
+		// a gap behind the medium is still detected by the positioned subscription
+		{Medium: true, Pos: true, Phase: c01Phases(map[int][]c01Op{6: c01Ops(P(false), P(false), c01Op{K: "drop", I: 0}, D(0), P(false), D(0))})},
+		// queue + BroadcastDelay: the queued publication is delivered after the delay ...
+		{Medium: true, NoFilter: true, MediumDelayMs: 300, Phase: c01Phases(map[int][]c01Op{6: c01Ops(P(false), D(0), P(false), D(0))})},
+		// ... also when an earlier subscriber's dissolve job fires while it is queued
+		{Medium: true, NoFilter: true, MediumDelayMs: 1200, Resub: true, Phase: c01Phases(map[int][]c01Op{6: c01Ops(P(false), D(0))})},
+		{Medium: true, NoFilter: true, JL: true, MediumDelayMs: 1300, Resub: true, Phase: c01Phases(map[int][]c01Op{6: c01Ops(J, D(0), P(false), D(0), P(false), D(0))})},
+	}
+}
+
+func c38RunE2E(t *testing.T, w *verifW, i int, sc *c01Script) {
+	if sc.Phase == nil {
+		sc.Phase = make([][]c01Op, 9)
+	}
+	world := c01NewWorld(t, sc)
+	func() {
+		defer func() {
+			if e := recover(); e != nil {
+				world.fail("panic: %v", e)
+			}
+		}()
+		world.run()
+	}()
+	frames := world.decode()
+	world.shutdown()
+	class := "e2e/client"
+	if sc.Server {
+		class = "e2e/server"
+	}
+	if sc.Connect {
+		class = "e2e/connect"
+	}
+	if sc.Pos {
+		class += "/positioned"
+	} else {
+		class += "/plain"
+	}
+	if sc.MediumDelayMs > 0 {
+		class += "/queue-delay"
+	}
+	if sc.Resub {
+		class += "/after-dissolve-submit"
+	}
+	markers := strings.Count(strings.Join(world.sched, " "), "LMarker")
+	if markers > 0 {
+		class += "/marker"
+	}
+	if len(world.errs) > 0 {
+		frames = append(frames, c01Frame{K: "unknown", Code: 999})
+		class = "driver-error"
+		t.Logf("case %d: %v", i, world.errs)
+	}
+	last := world.lastLive
+	if last == "" {
+		last = "None"
+	}
+	started, _, _, _ := c01Recv(frames)
+	pushes := 0
+	for _, f := range frames {
+		if f.K == "pub" || f.K == "join" || f.K == "leave" {
+			pushes++
+		}
+	}
+	nontrivial := started && (pushes > 0 || markers > 0)
+	w.Case(i, vApp("CE2E", world.caseTerm(frames), last), map[string]any{"script": sc, "sched": strings.Join(world.sched, " "),
+		"frames": frames, "glog": world.glog, "last": last, "errors": world.errs}, class, nontrivial)
+}
+
 func TestVerifC38(t *testing.T) {
 	w := verifOpen(t, "C38")
 	defer w.Close()
@@ -176,6 +321,7 @@ func TestVerifC38(t *testing.T) {
 		{Ops: []c38Op{{K: "check", Dt: 100, Delay: 10, R1: 0, R2: 2}, {K: "check", Dt: 1, Delay: 10, R1: 2, R2: 2}, {K: "check", Dt: 100, Delay: 10, R1: 2, R2: 1}}},
 		{Ops: []c38Op{{K: "check", Dt: 100, Delay: 10, R1: 0, R2: 0}, {K: "check", Dt: 100, Delay: 10, R1: 1}}},
 	}
+	e2e := c38E2ECorpus()
 	for i := 0; i < w.N; i++ {
 		if !w.Want(i) {
 			continue
@@ -184,8 +330,19 @@ func TestVerifC38(t *testing.T) {
 		var sc *c38Script
 		if i < len(corpus) {
 			sc = corpus[i]
+		} else if i < len(corpus)+len(e2e) {
+			c38RunE2E(t, w, i, e2e[i-len(corpus)])
+			continue
 		} else {
 			sc = c38RandScript(r)
+			// (drawn after the medium script: the medium-only cases of a seed stay what they were)
+			if x := r.Intn(200); x == 0 {
+				c38RunE2E(t, w, i, c38DelayScript(r))
+				continue
+			} else if x < 50 {
+				c38RunE2E(t, w, i, c38E2EScript(r))
+				continue
+			}
 		}
 		var sched, out, res []string
 		var left int
@@ -220,8 +377,8 @@ func TestVerifC38(t *testing.T) {
 			}
 		}
 		nontrivial := len(out) >= 2 && (sc.Queue || markers > 0)
-		term := vApp("mkCase", vBool(sc.Queue), vN(uint64(sc.Max)), vBool(sc.Delay), vN(1_000_000),
-			vList(sched), vList(out), vList(res), vN(uint64(left)), vBool(closed))
+		term := vApp("CMed", vApp("mkMCase", vBool(sc.Queue), vN(uint64(sc.Max)), vBool(sc.Delay), vN(1_000_000),
+			vList(sched), vList(out), vList(res), vN(uint64(left)), vBool(closed)))
 		w.Case(i, term, map[string]any{"script": sc, "sched": strings.Join(sched, " "), "out": out, "res": res, "left": left, "closed": closed, "errors": errs}, class, nontrivial)
 	}
 }
